@@ -14,8 +14,38 @@ the caller's configuration.
 """
 import json
 import os
+import threading
+import time
 
 import vlib
+
+
+class Bg:
+    """one TLC run in the background (the model check is independent of the real-run pipeline, and
+    judge / trace validation are independent of each other; JVM start-up dominates small runs)"""
+
+    def __init__(self, ctx, *a, **kw):
+        self.r = self.e = None
+        n0 = ctx._tlc_n
+        kw["count"] = False
+
+        def work():
+            try:
+                self.r = ctx.tlc(*a, **kw)
+            except BaseException as e:      # re-raised by join()
+                self.e = e
+        self.th = threading.Thread(target=work)
+        self.th.start()
+        while ctx._tlc_n == n0 and self.th.is_alive():     # its scratch directory number is taken
+            time.sleep(0.01)
+
+    def join(self, ctx):
+        self.th.join()
+        if self.e is not None:
+            raise self.e
+        ctx.states += self.r.distinct
+        ctx.transitions += self.r.generated
+        return self.r
 
 ALLPOS = [1, 2, 3, 4, 5, 6, 8, 9, 10]
 
@@ -108,23 +138,21 @@ def run(ctx):
     vals3 = [0, 1, 2, 3, 4, 7]
     replay = ctx.replay.get("case") if ctx.replay else None
 
-    # 1. design level
+    # 1. design level (runs while the real launches are prepared and executed)
+    mcs = []
     if replay is None:
         if t:
             ppos, epos = ALLPOS, [0] + ALLPOS
         else:
             ppos = sorted(ctx.rng.sample(ALLPOS, 2))
             epos = [0] + sorted(ctx.rng.sample(ALLPOS, 2))
-        r = ctx.tlc("FdShuffle", cfg=mc_cfg(vals3, 3, ppos, epos, 18), workers=4, timeout=ctx.pick(240, 900))
-        ctx.tlc_ok("FdShuffle MC (lists <= 3)", r)
-        ctx.cov["mc_lists3"] = dict(pipe_pos=ppos, exec_pos=epos, distinct=r.distinct)
-        ctx.log("MC lists<=3: %d distinct states (%.0fs)" % (r.distinct, r.wall))
+        ctx.cov["mc_lists3"] = dict(pipe_pos=ppos, exec_pos=epos)
+        mcs.append(("mc_lists3", Bg(ctx, "FdShuffle", cfg=mc_cfg(vals3, 3, ppos, epos, 18), workers=4,
+                                    timeout=ctx.pick(300, 1200))))
         if t:
-            r4 = ctx.tlc("FdShuffle", cfg=mc_cfg([0, 1, 2, 3, 5], 4, [1, 3, 5, 6, 7], [0, 2, 4, 6, 7], 20),
-                         workers=4, timeout=900)
-            ctx.tlc_ok("FdShuffle MC (lists <= 4)", r4)
-            ctx.cov["mc_lists4"] = dict(distinct=r4.distinct)
-            ctx.log("MC lists<=4: %d distinct states (%.0fs)" % (r4.distinct, r4.wall))
+            ctx.cov["mc_lists4"] = {}
+            mcs.append(("mc_lists4", Bg(ctx, "FdShuffle", cfg=mc_cfg([0, 1, 2, 3, 5], 4, [1, 3, 5, 6, 7], [0, 2, 4, 6, 7], 20),
+                                        workers=4, timeout=1200)))
 
     # 2. TLC enumerates the cases
     cgdir = "/sys/fs/cgroup/unified/verif-c06-%d-%d" % (os.getpid(), ctx.seed)
@@ -134,13 +162,20 @@ def run(ctx):
         ctx.note("no cgroup-v2 directory (%s): CgroupFd cases left out" % e)
         cgdir = None
     try:
-        return real_runs(ctx, t, vals3, replay, cgdir)
+        ret = real_runs(ctx, t, vals3, replay, cgdir)
     finally:
         if cgdir:
             try:
                 os.rmdir(cgdir)
             except OSError:
                 pass
+        done = [(name, b, b.th.join()) for name, b in mcs]
+    for name, b, _ in done:
+        r = b.join(ctx)
+        ctx.tlc_ok("FdShuffle MC %s" % name, r)
+        ctx.cov[name]["distinct"] = r.distinct
+        ctx.log("MC %s: %d distinct states (%.0fs)" % (name, r.distinct, r.wall))
+    return ret
 
 
 def real_runs(ctx, t, vals3, replay, cgdir):
@@ -213,8 +248,13 @@ def real_runs(ctx, t, vals3, replay, cgdir):
     if len(obs) != len(direct) or len(ctobs) != len(ct):
         raise vlib.Inconclusive("driver wrote %d/%d direct and %d/%d container lines" % (len(obs), len(direct), len(ctobs), len(ct)))
 
-    # 4. property layer: TLC judges every observation
-    j = ctx.tlc("FdShuffle_Judge", files={"obs.ndjson": obs, "ctobs.ndjson": ctobs}, timeout=900)
+    # 4. property layer: TLC judges every observation (5. the trace validation runs meanwhile)
+    tvb = Bg(ctx, "FdShuffle_Trace", files={"traces.ndjson": traces}, workers=1, timeout=900) if traces else None
+    try:
+        j = ctx.tlc("FdShuffle_Judge", files={"obs.ndjson": obs, "ctobs.ndjson": ctobs}, timeout=900)
+    finally:
+        if tvb:
+            tvb.th.join()
     ctx.tlc_ok("FdShuffle_Judge", j)
     if "judged" not in j.out:
         raise vlib.Inconclusive("judge did not report:\n" + j.tail(30))
@@ -260,7 +300,7 @@ def real_runs(ctx, t, vals3, replay, cgdir):
     drift = 0
     ops = {}
     if traces:
-        tv = ctx.tlc("FdShuffle_Trace", files={"traces.ndjson": traces}, workers=1, timeout=900)
+        tv = tvb.join(ctx)
         if tv.timed_out or not (tv.no_error or tv.postcondition_failed):
             raise vlib.Inconclusive("trace validation did not finish:\n" + tv.tail(40))
         bad = ctx.read_ndjson(os.path.join(tv.dir, "bad.ndjson"))
